@@ -298,6 +298,22 @@ fn c02_c03_c15(run: &Run, prop: &str) -> i32 {
     run.family("E2-OPS", &format!("{} seeds, nesting depth {} (large seeds {}), operations: every legal move, null move (not in check, not after a null move), take back; one Game object per (seed, first operation)", seeds.len(), seeds.iter().map(|x| x.2).max().unwrap(), seeds.iter().map(|x| x.2).min().unwrap()), n, e, true, "all sequences");
     s += n;
     t += e;
+    // one long reversible game (clock and history length far beyond what the nested sequences reach): at every ply
+    // every other legal move is made and taken back on the same game object before the scripted move is played
+    {
+        let plies = if run.quick() { 300 } else { 700 };
+        let (seed, script) = ops::rook_cycle_script(7, 8, plies, true);
+        total.lock().unwrap().clear();
+        match ops::run_script(&ctx, om, &seed, &script, &total) {
+            Ok(n) => {
+                run.merge_counts(&total.lock().unwrap());
+                run.family("E2-LONG-LINE", &format!("one scripted reversible game of {plies} plies (two rooks cycling, recurrence every 112 plies, halfmove clock and history length up to {plies}); at each ply every legal move is made and taken back, then the scripted move is played: {} operations", script.len()), n, script.len() as u64, true, "");
+                s += n;
+                t += script.len() as u64;
+            }
+            Err(e) => run.machinery_error(format!("long line script: {e}")),
+        }
+    }
     if prop == "C03" {
         let (a, b) = match crate::util::catch(|| keycomp::check(run)) {
             Ok(x) => x,
@@ -400,9 +416,34 @@ fn c11(run: &Run) -> i32 {
     let total = std::sync::Mutex::new(crate::monitors::Counts::new());
     let (n, e) = ops::run_ops(&ctx, om, &seeds, &total);
     run.merge_counts(&total.lock().unwrap());
+    total.lock().unwrap().clear();
     run.family("E2-HISTORIES", &format!("{} (seed, start clock) pairs, all paths of length <= {} (no state merging), start clocks {{0,3,97,98,99,100}} with empty history", seeds.len(), l), n, e, true, "every node: repetition and fifty-move verdicts vs the path");
     s += n;
     t += e;
+    // long reversible histories: every pair of rook-cycle lengths, positions recurring at every distance from 4 to
+    // 112 plies, played on past clock 100 and past two full periods
+    {
+        let pairs: Vec<(usize, usize)> = (2..=7).flat_map(|p| (2..=8).map(move |q| (p, q))).collect();
+        let nodes = std::sync::atomic::AtomicU64::new(0);
+        crate::util::par_for(pairs.len(), |i| {
+            let (p, q) = pairs[i];
+            let lcm = (1..).map(|k| k * p).find(|x| x % q == 0).unwrap();
+            let plies = (4 * lcm + 7).max(120).min(470);
+            let (seed, script) = ops::rook_cycle_script(p, q, plies, false);
+            match ops::run_script(&ctx, om, &seed, &script, &total) {
+                Ok(n) => {
+                    nodes.fetch_add(n, std::sync::atomic::Ordering::Relaxed);
+                }
+                Err(e) => run.machinery_error(format!("rook cycle script ({p},{q}): {e}")),
+            }
+        });
+        let n = nodes.load(std::sync::atomic::Ordering::Relaxed);
+        run.merge_counts(&total.lock().unwrap());
+        total.lock().unwrap().clear();
+        run.family("E2-LONG-CYCLES", "42 scripted histories (white rook cycling over p = 2..7 squares of rank 1, black rook over q = 2..8 squares of rank 8): recurrence distances 4..112 plies, each played for max(120, 4 lcm(p,q) + 7) plies (at most 470)", n, n, true, "every node: repetition and fifty-move verdicts vs the path");
+        s += n;
+        t += n;
+    }
     let (a, b) = crate::searchchk::c11_search(run);
     s += a;
     t += b;
